@@ -175,7 +175,10 @@ CLAIMED = {
               "homogeneous in the sources (so temperature rises scale with the power).  Row table (Model/PowerRows.lean, Props/C03Rows.lean): "
               "the table the reader builds from the labelled rows of a power file does not depend on the order of the rows and is "
               "the profile the labels describe (file-order reading provably is not); tied to power._from_file bit for bit on "
-              "files in canonical, item-major, reversed and shuffled order.  Real reactors (also with re-ordered files) are swept and the "
+              "files in canonical, item-major, reversed and shuffled order.  Integral (Model/PowerIntegral.lean, Props/C03Integral.lean, over the "
+              "reals with Mathlib's interval integral): the closed form power._integrate evaluates IS the integral of every item's "
+              "polynomial over the axial cell (odd powers vanish, even powers weigh 1/(2^j (j+1))); tied to the real _integrate on random "
+              "coefficient arrays.  Real reactors (also with re-ordered files) are swept and the "
               "deposited power is compared with an independent exact rational integration of the CSV polynomials."),
         note=COMMON_NOTE + ("T3 hand model + per-cell correspondence with AssemblyPower._renorm, plus reuse of the traced "
                             "update classes of C04 for linearity.  Assumes no clipping of negative samples and a non-zero "
